@@ -46,12 +46,13 @@ type Op struct {
 
 // Config is a concrete writer configuration.
 type Config struct {
-	Version  string `json:"version"` // "1.0" .. "2.0"
-	Human    bool   `json:"human"`
-	Seekable bool   `json:"seekable"`
-	Enc      string `json:"enc"`    // none user owner both
-	Filter   string `json:"filter"` // filter used for model streams: "" (exact buffering) or a name
-	Tiny     bool   `json:"tiny"`   // smallest possible values (files in which every offset stays below 256)
+	Version   string `json:"version"` // "1.0" .. "2.0"
+	Human     bool   `json:"human"`
+	Seekable  bool   `json:"seekable"`
+	Enc       string `json:"enc"`                 // none user owner both
+	Filter    string `json:"filter"`              // filter used for model streams: "" (exact buffering) or a name
+	Tiny      bool   `json:"tiny"`                // smallest possible values (files in which every offset stays below 256)
+	PlainMeta bool   `json:"plainmeta,omitempty"` // fixed Info (title "verification program") and ID instead of a drawn document-level plan (for users that know the title)
 }
 
 // ObjStm reports whether the configuration uses object streams and an xref stream.
@@ -475,7 +476,7 @@ func Execute(cfg Config, prog []Op, seed int64) (run Run, err error) {
 	user, owner := cfg.passwords()
 	opt := &pdf.WriterOptions{HumanReadable: cfg.Human, UserPassword: user, OwnerPassword: owner, UserPermissions: pdf.PermAll}
 	id := [][]byte{[]byte("0123456789abcdef"), []byte("fedcba9876543210")}
-	if !cfg.Tiny {
+	if !cfg.Tiny && !cfg.PlainMeta {
 		// an own source: the draws below must not depend on the plan
 		run.Meta = newMetaPlan(rand.New(rand.NewSource(seed^0x6d657461)), version)
 		id = run.Meta.ID
